@@ -1131,3 +1131,31 @@ func collectUfuncApps(w *World, x Expr, out *[]*ECall) {
 		collectUfuncApps(w, x.B, out)
 	}
 }
+
+
+// ufuncApp declares (on demand) and applies an uninterpreted spec function to SMT terms.
+func (vc *FnVC) ufuncApp(name string, terms ...string) (string, bool) {
+	d := vc.w.defs[name]
+	if d == nil || d.Kind != "ufunc" || len(d.Params) != len(terms) {
+		return "", false
+	}
+	fn := "sf_" + mangle(d.Name)
+	if !vc.declared[fn] {
+		var sorts []string
+		for _, b := range d.Params {
+			ty, err := vc.w.lookupType(b.Type, d.Pkg)
+			if err != nil {
+				return "", false
+			}
+			sorts = append(sorts, vc.w.so.sortOf(ty))
+		}
+		rty, err := vc.w.lookupType(d.Result, d.Pkg)
+		if err != nil {
+			return "", false
+		}
+		vc.declared[fn] = true
+		vc.emit(fmt.Sprintf("(declare-fun %s (%s) %s)", fn, strings.Join(sorts, " "), vc.w.so.sortOf(rty)))
+		vc.axiomsFor(d.Name)
+	}
+	return "(" + fn + " " + strings.Join(terms, " ") + ")", true
+}
